@@ -56,7 +56,7 @@ L2_PROPS = {"C01", "C02", "C03", "C04", "C05", "C06", "C07", "C08", "C09", "C10"
 ALL_PROPS = sorted(set(L1_POPS) | L2_PROPS)
 
 SECS = {"quick": 30, "thorough": 420}
-CORPUS = {"quick": (6, 20, 8), "thorough": (16, 32, 12)}  # packages, programs per package, max tasks
+CORPUS = {"quick": (10, 12, 8), "thorough": (24, 20, 12)}  # packages, programs per package, max tasks
 
 COMPONENTS = {
     "l1": {
@@ -193,18 +193,32 @@ def build_l2(tmp, race, tier, seed, name="l2", genmode="base", kind="mixed", cor
     pkgs = json.load(open(os.path.join(mod, "corpus", "packages.json")))
     if stale:
         plant_stale_outputs(mod, pkgs)
+    # One invocation of the tool per group of packages (those generated with -auto-instrument are named
+    # q.., the others p..): whatever the tool keeps from one package to the next is part of what is tested.
+    def cff_cmd(auto, target):
+        return [cff, "-quiet", "-genmode", genmode] + (["-auto-instrument"] if auto else []) + ["cffverif/corpus/" + target]
     procs = []
-    for p in pkgs:
-        cmd = [cff, "-quiet", "-genmode", genmode]
-        if p["auto_instr"]:
-            cmd.append("-auto-instrument")
-        cmd.append("cffverif/corpus/" + p["name"])
-        procs.append((p["name"], subprocess.Popen(cmd, cwd=mod, env=ENV, stdout=subprocess.PIPE, stderr=subprocess.STDOUT, text=True)))
+    for auto in (False, True):
+        group = [p for p in pkgs if bool(p["auto_instr"]) == auto]
+        if not group:
+            continue
+        prefix = "q" if auto else "p"
+        if not all(p["name"].startswith(prefix) for p in group):
+            raise Infra("corpus package names do not follow the p../q.. convention")
+        procs.append((group, subprocess.Popen(cff_cmd(auto, prefix + "..."), cwd=mod, env=ENV, stdout=subprocess.PIPE, stderr=subprocess.STDOUT, text=True)))
     bad = []
-    for name_, pr in procs:
+    for group, pr in procs:
         out, _ = pr.communicate()
         if pr.returncode != 0:
-            bad.append((name_, out[-3000:]))
+            # which packages is it about? each one on its own (outputs are rewritten)
+            alone = []
+            for p in group:
+                r = sh(cff_cmd(p["auto_instr"], p["name"]), cwd=mod)
+                if r.returncode != 0:
+                    alone.append((p["name"], r.stdout[-3000:]))
+            if not alone:
+                raise Infra("cff fails on the packages %s processed in one invocation, but on none of them alone:\n%s" % ([p["name"] for p in group], out[-3000:]))
+            bad += alone
     DROPPED.pop(name, None)
     if bad:
         msg = "cff (built from /repo) rejected or crashed on generated programs (genmode=%s):\n" % genmode
